@@ -1,6 +1,6 @@
 """C18 - connect() and sense() honour their documented contract."""
 from .common import *   # noqa
-from .c15_lock import clf, RT, LT, TAG, EMU, CB, C
+from .c15_lock import clf, RT, LT, TAG, EMU, CB, C, on_acquire, setup as c15_setup
 
 SDEV = lambda: Obj('models.clf_models:SenseDevice', _partial=False, clf=Ref('self'))   # noqa
 
@@ -51,7 +51,10 @@ for nm, target_fn, use, extra, loops in (
     o.update(extra)
     contract(C + 'ContactlessFrontend.' + nm, 'C18',
              dict(self=clf(), options=DictOf(o), terminate=CB('lambda: nondet_bool()')),
-             name='C18/' + nm, setup=reset_events, use=use, loops=loops,
+             name='C18/' + nm, use=use, loops=loops,
+             # the application may close the frontend from its terminate()/callbacks or another thread: as in
+             # C15 the device reference may be gone whenever the lock is re-acquired
+             setup=lambda ex, env: (c15_setup(ex, env), reset_events(ex, env)), hooks={'on_acquire': on_acquire},
              ensures=[('post.order', 'is_prefix_of_activation(only_callbacks(EVENTS))'),
                       ('post.release-once', 'count(EVENTS, "release") <= 1 and '
                                             '(count(EVENTS, "release") == 1) == (result == 0 or result == 1)'),
